@@ -7,6 +7,7 @@
 //! so the same body replays the counterexample against the real build (real redb, bytes, blake3).
 
 pub mod src;
+pub mod ranger_l;
 
 /// re-export for the native witness programs (iroh-blobs is not a dependency of /verif/replay)
 pub use iroh_blobs::Hash;
